@@ -63,7 +63,7 @@ func checkC09R(cc CaseC09R) (*vkit.Failure, vkit.Meta) {
 			}
 		}
 		if c.Modifier {
-			cfg.MessageModifier = react.NewPersonaModifier("persona")
+			cfg.MessageModifier = personaModifier18(c.ModInPlace)
 		}
 		if c.WholeChk {
 			cfg.StreamToolCallChecker = wholeChecker
